@@ -4,6 +4,7 @@ package gossip
 
 import (
 	"fmt"
+	"sync"
 	"testing/synctest"
 	"time"
 
@@ -100,6 +101,24 @@ func h1GenDriven(prop string) func(rng *simkit.Rand, tier string, idx int) *simk
 				}
 			}
 			c.Script = append(c.Script, op)
+		}
+		// motifs: short targeted sequences spliced in at a random position, so that
+		// rare orderings (suspected, then departed, then heard again; expiry right
+		// after a relay) are reached far more often than by independent draws
+		if prop == "C11" || prop == "C14" || rng.Intn(4) == 0 {
+			a, b := rng.Intn(1<<16), rng.Intn(1<<16)
+			sec := func(lo, hi int) int64 { return int64(time.Duration(rng.Range(lo, hi)) * time.Second) }
+			motifs := [][]simkit.Op{
+				{{K: "round", A: a, B: b}, {K: "flush"}, {K: "advance", D: sec(5, 9)}, {K: "liveness", A: a}, {K: "round", A: a, B: b}, {K: "deliver", A: 0},
+					{K: "leave", A: b, B: 1}, {K: "flush"}, {K: "liveness", A: a}, {K: "advance", D: sec(61, 80)}, {K: "expire", A: a}},
+				{{K: "round", A: a, B: b}, {K: "flush"}, {K: "advance", D: sec(5, 9)}, {K: "liveness", A: a}, {K: "leave", A: b, B: rng.Intn(2)}, {K: "flush"}, {K: "liveness", A: a}},
+				{{K: "round", A: a, B: b}, {K: "flush"}, {K: "advance", D: sec(5, 9)}, {K: "liveness", A: a}, {K: "round", A: b, B: a}, {K: "flush"}, {K: "liveness", A: a},
+					{K: "advance", D: sec(61, 80)}, {K: "expire", A: a}, {K: "round", A: a, B: b}, {K: "flush"}},
+				{{K: "crash", A: b}, {K: "advance", D: sec(5, 9)}, {K: "liveness", A: a}, {K: "advance", D: sec(61, 80)}, {K: "expire", A: a}, {K: "round", A: a, B: b}, {K: "flush"}, {K: "expire", A: a + 1}, {K: "flush"}},
+			}
+			m := motifs[rng.Intn(len(motifs))]
+			at := rng.Intn(len(c.Script) + 1)
+			c.Script = append(c.Script[:at:at], append(m, c.Script[at:]...)...)
 		}
 		return c
 	}
@@ -246,6 +265,16 @@ func h1ExecDriven(run *simkit.Run) {
 			}
 		case "advance":
 			run.Logf("advance %v", time.Duration(op.D))
+			if time.Duration(op.D) >= 10*time.Second {
+				// datagrams do not survive in the network for tens of seconds: a
+				// packet older than that is lost, not delivered after an expiry
+				w.mu.Lock()
+				if n := len(w.pend); n > 0 {
+					run.Fault("pkt_lost_too_old")
+				}
+				w.pend = nil
+				w.mu.Unlock()
+			}
 			time.Sleep(time.Duration(op.D))
 		case "liveness":
 			if x := pick(op.A, alive); x != nil {
@@ -375,6 +404,9 @@ func (w *h1World) opExpire(x *h1Node) {
 			}
 			run.Fail("C11.local", sig, "n%d forgot %s although no expiry was due (left=%v unreachable=%v)", x.idx, m.ID, m.Left, m.Unreachable)
 		}
+		if v := x.views[m.ID]; still && v != nil && v.known && v.leftSeenSet && now.Sub(v.leftSeenAt) > nodeExpiry+time.Second {
+			run.Fail("C11.left-expire", "left-node-not-forgotten", "n%d still knows departed %s after an expiry sweep %v after it learnt of the departure", x.idx, m.ID, now.Sub(v.leftSeenAt))
+		}
 		if due && !still {
 			run.Probe("c11.expired")
 			run.Logf("n%d expired %s", x.idx, m.ID)
@@ -490,8 +522,146 @@ func (w *h1World) stuckOnOversize() bool {
 	return false
 }
 
-func init() {
-	for _, p := range []string{"C02", "C14", "C17"} {
-		simkit.Register(&simkit.Prop{ID: p, Gen: h1GenDriven(p), Exec: h1ExecDriven})
+// Concurrent local writers (C17): goroutines write disjoint key sets of one
+// node while another goroutine compacts, under the seeded scheduler with lock
+// yields. At quiescence every key must show its writer's last write.
+func h1GenConcurrent(rng *simkit.Rand, tier string, idx int) *simkit.Case {
+	c := &simkit.Case{Family: "h1.concurrent", Cfg: map[string]int64{}}
+	c.Cfg["writers"] = int64(rng.Range(1, 4))
+	c.Cfg["ops"] = int64(rng.Range(4, 40))
+	c.Cfg["keys"] = int64(rng.Range(1, 4))
+	c.Cfg["compactions"] = int64(rng.Range(1, 12))
+	c.Cfg["yield_den"] = []int64{2, 2, 8, 64}[rng.Intn(4)]
+	c.Cfg["max_packet"] = 1400
+	c.Cfg["nodes"] = 2
+	return c
+}
+
+func h1ExecConcurrent(run *simkit.Run) {
+	c := run.Case
+	w := newH1World(run, 2, 1400, h1DrivenInterval, true, simnet.Config{})
+	defer func() {
+		w.nw.Intercept = func(string, string, []byte) bool { return true }
+		w.emitChecks = false
+		w.closeAll()
+	}()
+	if run.Failed() {
+		return
 	}
+	x := w.nodes[0]
+	type last struct {
+		value   string
+		deleted bool
+	}
+	writers := c.Int("writers")
+	final := make([]map[string]last, writers)
+	var wg sync.WaitGroup
+	for wi := 0; wi < writers; wi++ {
+		final[wi] = map[string]last{}
+		wg.Add(1)
+		go func(wi int, rng *simkit.Rand) {
+			defer wg.Done()
+			for k := 0; k < c.Int("ops"); k++ {
+				key := fmt.Sprintf("w%d-k%d", wi, rng.Intn(c.Int("keys")))
+				if rng.Intn(3) == 0 {
+					x.g.DeleteLocal(key)
+					if l, ok := final[wi][key]; ok && !l.deleted {
+						final[wi][key] = last{deleted: true}
+					}
+				} else {
+					v := fmt.Sprintf("v%d-%d", wi, k)
+					x.g.UpsertLocal(key, v)
+					final[wi][key] = last{value: v}
+				}
+				if rng.Intn(4) == 0 {
+					time.Sleep(time.Microsecond)
+				}
+			}
+		}(wi, run.Aux.Fork())
+	}
+	wg.Add(1)
+	go func(rng *simkit.Rand) {
+		defer wg.Done()
+		for k := 0; k < c.Int("compactions"); k++ {
+			x.g.state.CompactLocal(1)
+			if rng.Intn(2) == 0 {
+				time.Sleep(time.Microsecond)
+			}
+		}
+	}(run.Aux.Fork())
+	wg.Wait()
+	synctest.Wait()
+	ns := x.g.LocalNode()
+	have := map[string]Entry{}
+	vs := map[uint64]string{}
+	for _, e := range ns.Entries {
+		have[e.Key] = e
+		if o, dup := vs[e.Version]; dup {
+			run.Fail("C17.version", "duplicate-version", "keys %q and %q share version %d after concurrent writes", o, e.Key, e.Version)
+		}
+		vs[e.Version] = e.Key
+		if e.Version > ns.Version {
+			run.Fail("C17.version", "entry-above-node-version", "key %q v%d > node version %d", e.Key, e.Version, ns.Version)
+		}
+	}
+	for wi := range final {
+		for key, l := range final[wi] {
+			e, ok := have[key]
+			switch {
+			case l.deleted:
+				// a deleted key shows a tombstone or has been compacted away
+				if ok && !e.Deleted {
+					run.Fail("C17.lww", "concurrent-delete-undone", "key %q was last deleted by its writer but shows %q", key, e.Value)
+				}
+			case !ok || e.Deleted:
+				run.Fail("C17.lww", "concurrent-write-lost", "key %q was last written %q by its writer but is %s", key, l.value, map[bool]string{true: "deleted", false: "absent"}[ok])
+			case e.Value != l.value:
+				run.Fail("C17.lww", "concurrent-write-rolled-back", "key %q was last written %q by its writer but shows %q", key, l.value, e.Value)
+			}
+		}
+	}
+	for key, e := range have {
+		if e.Internal {
+			continue
+		}
+		found := false
+		for wi := range final {
+			if _, ok := final[wi][key]; ok {
+				found = true
+			}
+		}
+		if !found && !e.Deleted {
+			// deleted-before-ever-written keys never appear; anything else is phantom
+			run.Fail("C17.lww", "phantom-key", "key %q=%q was never written", key, e.Value)
+		}
+	}
+	// an observer that synchronises afterwards ends up with the same state
+	w.absorbLocal(x)
+	w.absorbLocal(w.nodes[1])
+	w.nodes[1].g.Join([]string{x.addr})
+	synctest.Wait()
+	if ok, why := w.converged(); !ok {
+		run.Fail("C03.converge", "after-concurrent-writes", "%s", why)
+	}
+	_, _, yields := simkit.SchedStats()
+	if yields > 0 {
+		run.Probe("nontrivial")
+	}
+	run.Probe("c17.concurrent_run")
+	run.Summary = fmt.Sprintf("concurrent local writers=%d ops=%d compactions=%d yield=1/%d", writers, c.Int("ops"), c.Int("compactions"), c.Int("yield_den"))
+}
+
+func init() {
+	simkit.Register(&simkit.Prop{ID: "C17", Exec: func(run *simkit.Run) {
+		if run.Case.Family == "h1.concurrent" {
+			h1ExecConcurrent(run)
+		} else {
+			h1ExecDriven(run)
+		}
+	}, Gen: func(rng *simkit.Rand, tier string, idx int) *simkit.Case {
+		if idx%4 == 3 {
+			return h1GenConcurrent(rng, tier, idx)
+		}
+		return h1GenDriven("C17")(rng, tier, idx)
+	}})
 }
